@@ -296,6 +296,61 @@ func frontPhase(ctx *Ctx) {
 			ctx.Emit(hv.L(hv.I(4), cfgV, hv.L(hv.S(ks)), histV, hv.B(sent)), out, note)
 			ctx.Count(note)
 		}
+		// state that changes on ONE connection: an id is EXECUTEd while the proxy does not know it, then PREPAREd through
+		// the proxy, then EXECUTEd again -- on the same client connection and on another one
+		for li, q := range []string{"SELECT v FROM ks.t WHERE k = ? AND j = 1", "INSERT INTO ks.t (k, v) VALUES (?, 7)", "SELECT v FROM ks.t WHERE k = ? AND j = 2 ALLOW FILTERING"} {
+			id := be.PrepareEverywhere(q)
+			cur := append([]hv.V{}, hist...)
+			step := func(cl *px.Client, ks string, what string) {
+				for _, cons := range []primitive.ConsistencyLevel{primitive.ConsistencyLevelOne, primitive.ConsistencyLevelLocalQuorum} {
+					seq++
+					tok := fmt.Sprintf("fl%dx%d", ctx.Seed%1000, seq)
+					e := &message.Execute{QueryId: id, ResultMetadataId: id, Options: &message.QueryOptions{Consistency: cons,
+						PositionalValues: []*primitive.Value{primitive.NewValue([]byte("tok:" + tok))}}}
+					sent := cl.Encode(primitive.ProtocolVersion4, int16(1+seq%20000), e, nil)
+					be.SetScript(tok, fb.Outcome{Kind: fb.ErrMsg, Msg: &message.ServerError{ErrorMessage: "scripted"}}, fb.Outcome{Kind: fb.OkRows})
+					be.ResetLog()
+					_ = cl.SendRaw(sent)
+					f, _ := cl.Next(5 * time.Second)
+					_ = cl.Send(primitive.ProtocolVersion4, 30000, &message.Query{Query: "SELECT v FROM ks.t WHERE k = 'barrier'", Options: &message.QueryOptions{}})
+					for {
+						b, berr := cl.Next(5 * time.Second)
+						if berr != nil || b == nil || b.Stream == 30000 {
+							break
+						}
+					}
+					var recs []fb.Rec
+					for _, x := range be.Snapshot() {
+						if x.Token == tok && x.Kind == "execute" {
+							recs = append(recs, x)
+						}
+					}
+					out := hv.L(hv.I(9))
+					switch {
+					case len(recs) > 0:
+						reenc := !(bytes.Equal(recs[0].Raw[:2], sent[:2]) && bytes.Equal(recs[0].Raw[4:], sent[4:]))
+						out = hv.L(hv.I(3), hv.Bool(reenc), hv.Bool(len(recs) > 1))
+					case f != nil:
+						out = hv.L(hv.I(1))
+					}
+					note := fmt.Sprintf("front:cfg%d:execute:%s", ci, what)
+					ctx.Emit(hv.L(hv.I(4), cfgV, hv.L(hv.S(ks)), hv.L(cur...), hv.B(sent)), out, note)
+					ctx.Count(note)
+				}
+			}
+			ks := keyspaces[li%len(keyspaces)]
+			cl := clients[ks]
+			step(cl, ks, "id-not-yet-prepared-through-the-proxy")
+			_ = cl.Send(primitive.ProtocolVersion4, 2, &message.Prepare{Query: q})
+			if f, _ := cl.Next(5 * time.Second); f == nil || f.Opcode != byte(primitive.OpCodeResult) {
+				panic("front: late prepare failed: " + q)
+			}
+			cur = append(cur, hv.L(hv.B(id), hv.S(q), hv.S(ks)))
+			step(cl, ks, "same-connection-after-the-prepare")
+			other := keyspaces[(li+1)%len(keyspaces)]
+			step(clients[other], other, "another-connection-after-the-prepare")
+			hist = cur
+		}
 		for _, c := range clients {
 			c.Close()
 		}
